@@ -360,8 +360,32 @@ func c13Run(r *vkit.Run) {
 			}
 		}
 	}
+	// (d) an operation with a scalar literal as an operand of a set operator (the operation is a vector, whichever side
+	// its literal is on)
+	for _, op1 := range []string{"+", "-", "*", "/", "^", ">", "=="} {
+		for _, op2 := range []string{"and", "or", "unless"} {
+			idx++
+			if !r.Mine(idx) || r.Stop() {
+				continue
+			}
+			lit, v1, v2 := &refmodel.Lit{V: 2}, &refmodel.Vec{V: 3}, &refmodel.Vec{V: 4}
+			for _, tree := range []refmodel.Expr{
+				&refmodel.Bin{Op: op2, L: &refmodel.Bin{Op: op1, L: lit, R: v1}, R: v2},
+				&refmodel.Bin{Op: op2, L: &refmodel.Bin{Op: op1, L: v1, R: lit}, R: v2},
+				&refmodel.Bin{Op: op2, L: v2, R: &refmodel.Bin{Op: op1, L: lit, R: v1}},
+				&refmodel.Bin{Op: op2, L: v2, R: &refmodel.Bin{Op: op1, L: v1, R: lit}},
+				&refmodel.Bin{Op: op2, L: &refmodel.Bin{Op: op1, L: lit, R: v1}, R: &refmodel.Bin{Op: op1, L: v2, R: lit}},
+			} {
+				for _, red := range []bool{false, true} {
+					if c13Check(r, c13Input{Tokens: c13Print(tree, red), Tree: prefix(tree)}) {
+						r.NonTrivial()
+					}
+				}
+			}
+		}
+	}
 	r.Count("chains_where_right_nesting_changes_the_value", int64(nsep))
-	r.Note("bounds", fmt.Sprintf("all chains of 2..5 operands over 15 operators (54240 chains) x 2 operand tuples; all binary trees with 2..%d operators over %d operators printed with minimal and with redundant parentheses; both shapes of two arithmetic operators with every placement of one or two scalar literals; instant queries", K, len(opset)))
+	r.Note("bounds", fmt.Sprintf("all chains of 2..5 operands over 15 operators (54240 chains) x 2 operand tuples; all binary trees with 2..%d operators over %d operators printed with minimal and with redundant parentheses; both shapes of two arithmetic operators with every placement of one or two scalar literals; operations with a literal as operands of set operators; instant queries", K, len(opset)))
 }
 
 func c13Replay(r *vkit.Run, v vkit.Violation) *vkit.Violation {
